@@ -1740,3 +1740,110 @@ Proof.
   rewrite (ctl_target_equiv_rest rx (rw_list all t all) c st (rw_list all t rs) ph phs rq Hc).
   rewrite (tgt_ids_meta (rw_list all t all) all c Hm). reflexivity.
 Qed.
+
+(* ================= a LIST of ctl removals executed in one transaction: union, in any order ================= *)
+From Coq Require Import Permutation.
+
+(* from related states, the rest of the transaction over the list without the removed ids *)
+Lemma rm_rest_from_rel rx all P rs ph phs rq s1 s2 :
+  Rel (RXrm P) s1 s2 ->
+  obs (cf_rest rx all rs ph phs rq s1) = obs (cf_rest rx (allP all P) (filter (keepP P) rs) ph phs rq s2).
+Proof.
+  intro H0. apply same_obs_obs. unfold cf_rest.
+  pose proof (Rel_end_phase (RXrm P) (RXrm_frame P) _ _ (rm_sim_list rx all P ph rq rs _ _ H0)) as H1.
+  revert H1. generalize (st_end_phase (eval_list rx all rs ph rq s1)).
+  generalize (st_end_phase (eval_list rx (allP all P) (filter (keepP P) rs) ph rq s2)).
+  induction phs as [|p phs IH]; intros t2 t1 H; cbn [fold_left]; [exact (proj2 H)|].
+  apply IH. pose proof H as [_ [_ [B _]]]. rewrite <- B. destruct (st_intr t1); [exact H|].
+  unfold eval_phase. apply (Rel_end_phase (RXrm P) (RXrm_frame P)).
+  apply (rm_sim_list rx all P p rq all). exact H.
+Qed.
+
+(* the ids removed by a list of executed removal ctls: the UNION of what each of them removes *)
+Definition rm_set_list (all : list crule) (cs : list ctl) (id : N) : bool :=
+  existsb (fun c => rm_set all c id) cs.
+
+Lemma fold_rm_state all cs : forall st, forallb is_rm_ctl cs = true ->
+  let st' := fold_left (fun s c => cf_ctl_step all c s) cs st in
+  (forall id, is_removed st' id = is_removed st id || rm_set_list all cs id) /\
+  (forall id, texc_for st' id = texc_for st id) /\ same_obs st' st.
+Proof.
+  induction cs as [|c t IH]; intros st H; cbn [fold_left forallb rm_set_list existsb] in *.
+  - repeat split; intros; rewrite ?orb_false_r; reflexivity.
+  - apply andb_true_iff in H as [Hc Ht]. destruct (IH (cf_ctl_step all c st) Ht) as [A [B C]].
+    destruct (rm_ctl_initial all c st Hc) as [R1 R2].
+    repeat split.
+    + intro id. rewrite A, R1. unfold rm_set_list.
+      destruct (rm_set all c id), (is_removed st id); reflexivity.
+    + intro id. rewrite B. destruct c as [[n|a b]|tg|m| | |]; try discriminate; cbn [cf_ctl_step]; try reflexivity.
+      destruct (a <=? b); reflexivity.
+    + destruct C as [C1 [C2 [C3 C4]]]. rewrite C1, ctl_step_skip. reflexivity.
+    + destruct C as [C1 [C2 [C3 C4]]]. rewrite C2, ctl_step_intr. reflexivity.
+    + destruct C as [C1 [C2 [C3 C4]]]. rewrite C3, ctl_step_matched. reflexivity.
+    + destruct C as [C1 [C2 [C3 C4]]]. rewrite C4, ctl_step_skipn. reflexivity.
+Qed.
+
+(* after ANY list of ctl:ruleRemoveById (ids, ranges) / ByTag / ByMsg executions, the rest of the
+   transaction behaves as over the rule list without the rules carrying an id of the union *)
+Theorem ctl_remove_list_equiv rx all cs st rs ph phs rq :
+  forallb is_rm_ctl cs = true ->
+  obs (cf_rest rx all rs ph phs rq (fold_left (fun s c => cf_ctl_step all c s) cs st))
+  = obs (cf_rest rx (allP all (rm_set_list all cs)) (filter (keepP (rm_set_list all cs)) rs) ph phs rq st).
+Proof.
+  intro H. apply rm_rest_from_rel. destruct (fold_rm_state all cs st H) as [A [B C]].
+  split; [split|exact C].
+  - intro id. rewrite A. apply orb_comm.
+  - intros id _. apply B.
+Qed.
+
+Lemma existsb_perm {A} (f : A -> bool) l l' : Permutation l l' -> existsb f l = existsb f l'.
+Proof.
+  induction 1; cbn [existsb]; try reflexivity.
+  - rewrite IHPermutation. reflexivity.
+  - destruct (f x), (f y); reflexivity.
+  - congruence.
+Qed.
+
+Lemma forallb_perm {A} (f : A -> bool) l l' : Permutation l l' -> forallb f l = forallb f l'.
+Proof.
+  induction 1; cbn [forallb]; try reflexivity.
+  - rewrite IHPermutation. reflexivity.
+  - destruct (f x), (f y); reflexivity.
+  - congruence.
+Qed.
+
+(* the removal set does not depend on the order in which the ctl actions were executed ... *)
+Lemma rm_set_list_perm all cs cs' id : Permutation cs cs' -> rm_set_list all cs id = rm_set_list all cs' id.
+Proof. intro H. unfold rm_set_list. apply existsb_perm; exact H. Qed.
+
+Theorem ctl_remove_order_irrelevant all cs cs' st id :
+  Permutation cs cs' -> forallb is_rm_ctl cs = true ->
+  is_removed (fold_left (fun s c => cf_ctl_step all c s) cs st) id
+  = is_removed (fold_left (fun s c => cf_ctl_step all c s) cs' st) id.
+Proof.
+  intros Hp H. assert (forallb is_rm_ctl cs' = true) as H' by (rewrite <- (forallb_perm _ _ _ Hp); exact H).
+  destruct (fold_rm_state all cs st H) as [A _]. destruct (fold_rm_state all cs' st H') as [A' _].
+  rewrite A, A', (rm_set_list_perm all cs cs' id Hp). reflexivity.
+Qed.
+
+(* ... and neither does the rest of the transaction *)
+Theorem ctl_remove_perm_rest rx all cs cs' st rs ph phs rq :
+  Permutation cs cs' -> forallb is_rm_ctl cs = true ->
+  obs (cf_rest rx all rs ph phs rq (fold_left (fun s c => cf_ctl_step all c s) cs st))
+  = obs (cf_rest rx all rs ph phs rq (fold_left (fun s c => cf_ctl_step all c s) cs' st)).
+Proof.
+  intros Hp H. assert (forallb is_rm_ctl cs' = true) as H' by (rewrite <- (forallb_perm _ _ _ Hp); exact H).
+  rewrite (ctl_remove_list_equiv rx all cs st rs ph phs rq H), (ctl_remove_list_equiv rx all cs' st rs ph phs rq H').
+  assert (forall r, keepP (rm_set_list all cs) r = keepP (rm_set_list all cs') r) as E
+    by (intro r; unfold keepP; rewrite (rm_set_list_perm all cs cs' _ Hp); reflexivity).
+  unfold allP. rewrite (filter_ext' _ _ all (fun r _ => E r)), (filter_ext' _ _ rs (fun r _ => E r)). reflexivity.
+Qed.
+
+(* a range removes exactly its members: the rule with id i is removed by a list of id / range entries iff
+   one entry is the id i or a valid range a-b with a <= i <= b *)
+Lemma rm_set_list_ids all (l : list idspec) id :
+  rm_set_list all (map CRmId l) id = existsb (fun sp => spec_valid sp && spec_has sp id) l.
+Proof.
+  unfold rm_set_list. induction l as [|sp l IH]; [reflexivity|]. cbn [map existsb]. rewrite IH. f_equal.
+  destruct sp as [n|a b]; cbn [rm_set spec_valid spec_has andb]; reflexivity.
+Qed.
